@@ -8,6 +8,12 @@ import time
 
 VERIF = os.path.dirname(os.path.dirname(os.path.abspath(__file__)))
 KNOWN = os.path.join(VERIF, "known_findings.txt")
+# Mutation experiments on scratch copies (DESIGN 2.5): VERIF_REPO = a scratch worktree of the
+# repository, VERIF_HARNESS = a copy of harness/ whose path dependency points at it,
+# VERIF_EVIDENCE = where evidence/replays go instead of /verif.  Registered checks never set these.
+REPO = os.environ.get("VERIF_REPO", "/repo")
+HARNESS = os.environ.get("VERIF_HARNESS", os.path.join(VERIF, "harness"))
+OUT = os.environ.get("VERIF_EVIDENCE", VERIF)
 
 
 class ToolError(Exception):
@@ -23,10 +29,10 @@ def seed():
 
 def build_harness(profile="dev"):
     """Rebuilds the harness (and therefore /repo with hooks on) from the current working tree."""
-    h = os.path.join(VERIF, "harness")
+    h = HARNESS
     lock = os.path.join(h, "Cargo.lock")
     if not os.path.exists(lock):
-        subprocess.run(["cp", "/repo/Cargo.lock", lock], check=True)
+        subprocess.run(["cp", os.path.join(REPO, "Cargo.lock"), lock], check=True)
     cmd = ["cargo", "build", "--quiet"] + (["--profile", profile] if profile != "dev" else [])
     p = subprocess.run(cmd, cwd=h, capture_output=True, text=True)
     if p.returncode != 0:
@@ -37,12 +43,12 @@ def build_harness(profile="dev"):
 def build_naija(release=False):
     """Builds the shipped `naija` binary from /repo's current working tree (no hooks) into
     /verif/work/target-naija and returns its path."""
-    tdir = os.path.join(VERIF, "work", "target-naija")
+    tdir = os.path.join(VERIF, "work", "target-naija" if REPO == "/repo" else "target-naija-scratch")
     os.makedirs(tdir, exist_ok=True)
-    cmd = ["cargo", "build", "--quiet", "--offline", "--manifest-path", "/repo/Cargo.toml", "--bin", "naija", "--target-dir", tdir]
+    cmd = ["cargo", "build", "--quiet", "--offline", "--manifest-path", os.path.join(REPO, "Cargo.toml"), "--bin", "naija", "--target-dir", tdir]
     if release:
         cmd.append("--release")
-    p = subprocess.run(cmd, capture_output=True, text=True, cwd="/repo")      # cwd selects /repo's toolchain file
+    p = subprocess.run(cmd, capture_output=True, text=True, cwd=REPO)      # cwd selects the repository's toolchain file
     if p.returncode != 0:
         sys.stderr.write(p.stderr[-4000:])
         raise ToolError("building naija failed")
@@ -82,8 +88,8 @@ class Verdict:
 
     def finish(self):
         """Writes evidence and replays, prints KNOWN-FINDING / VIOLATION lines, returns the exit code."""
-        os.makedirs(os.path.join(VERIF, "evidence"), exist_ok=True)
-        rdir = os.path.join(VERIF, "replays", self.pid)
+        os.makedirs(os.path.join(OUT, "evidence"), exist_ok=True)
+        rdir = os.path.join(OUT, "replays", self.pid)
         os.makedirs(rdir, exist_ok=True)
         violations = 0
         known_hit = []
@@ -103,7 +109,7 @@ class Verdict:
         cov.setdefault("known_findings_seen", sorted(known_hit))
         ev = {"property_id": self.pid, "tier": self.tier, "seed": seed(), "level": self.level, "coverage": cov,
               "assumptions": self.assumptions, "wall_s": round(time.time() - self.t0, 2), "violations": violations}
-        with open(os.path.join(VERIF, "evidence", self.pid + ".json"), "w") as f:
+        with open(os.path.join(OUT, "evidence", self.pid + ".json"), "w") as f:
             json.dump(ev, f, indent=1, default=str)
         for ln in lines:
             print(ln)
